@@ -24,6 +24,27 @@ CLAIMED['C05'] = dict(
     note='Trusted: Coq kernel; Exec models tied by lock-step replay to memory_arena over growing, fixed, static and virtual block sources and to memory_stack; pools, collections and iteration allocators are covered by the bracket oracle on their upstream logs (with the k-th upstream call failing, moves and move assignments) and by the stale-write detector of the instrumented upstream, not by a theorem about their own code paths.',
     technique='Coq proofs over executable arena/stack models + lock-step correspondence + upstream-log bracket oracle', ref='5 C05')
 
+CLAIMED['C01'] = dict(
+    text='Spec-layer model of the free lists behind memory_pool and memory_pool_collection (PoolSpec.v, all three list types, any number of buckets) with an invariant proved for every accepted history: ranges handed to the lists are pairwise disjoint and inside the usable part of held upstream blocks; nodes handed out are nodes of those ranges, never handed out twice. Consequences proved: any two live nodes (same or different bucket) are disjoint; every live node lies inside a held block; node geometry lemmas for intrusive and chunked small lists for every node size. Exec models of memory_stack and iteration_allocator<N>: each served request is inside the current block/region and disjoint from everything live; iteration write events avoid live allocations.',
+    note='Trusted: Coq kernel; models hand-written. Tie: pool/collection logs (results, ranges reported by the guarded insert hook, upstream calls) replayed through the extracted acceptance function; stacks and iteration allocators in Exec lock-step; content patterns in every live allocation verified at release and in sweeps; memory returned upstream checked for later writes. Not modelled here: static_allocator, temporary_allocator and the low-level allocators (bump model and fence shift are covered under C11/C14/C17), pools over static/virtual sources.',
+    technique='Coq invariant proofs over Spec/Exec models + trace acceptance / lock-step via extracted OCaml', ref='5 C01')
+CLAIMED['C02'] = dict(
+    text='Theorems: the bump allocator (fixed_memory_stack::allocate, behind stacks, iteration regions, static storage, joint memory, collections) returns a non-null pointer aligned to any positive alignment asked for, after the front fence, with size + back fence inside the memory given, and its padding is the align_offset translated from the source; pool/collection requests are served by ceil(bytes/node size) consecutive live nodes covering the bytes; every node of every list (first or grown block, first or later chunk) is aligned to alignment_for(node size); memory_stack results are aligned and inside a held block also right after growth.',
+    note='Trusted: Coq kernel; hand-written models tied by replay (see C01). The harness writes and reads back all count*size bytes of every allocation; alignment of each result is re-checked against the request on the log. aligned_allocator and the low-level 2*max_alignment shift are exercised under C09/C17, not proved here.',
+    technique='Coq proofs (layout arithmetic + invariants) + trace acceptance / lock-step', ref='5 C02')
+CLAIMED['C03'] = dict(
+    text='Theorems: in every accepted pool/collection step a throwing function never yields null, a try_ function never throws and never reaches the upstream source; a refused request (with the upstream failing or not) keeps every allocation and takes no capacity away, and the invariant (hence C01/C02 for later requests) holds after any outcome; memory_stack::allocate ends in a pointer or one of three exceptions, never null, try_allocate makes no upstream call and null changes nothing; a failing block source leaves an arena unchanged; an iteration allocator refusal changes nothing.',
+    note='Trusted: Coq kernel; models hand-written. Tie: fault injection (k-th upstream call fails) and exhaustion of fixed sources through throwing and composable interfaces, histories continue after failures; exception class, handler invocation count and null/throw discipline are compared on every log line; requests around next_capacity in fence configurations. Exception classification (bad_allocation_size vs out_of_memory family) is checked on the implementation, not derived in Coq.',
+    technique='Coq proofs over Spec/Exec models + fault-injection replay', ref='5 C03')
+CLAIMED['C04'] = dict(
+    text='Theorems for every accepted history of node/array requests and releases on any list of a pool or collection: the free count equals nodes linked minus nodes handed out; each operation moves it by exactly ceil(bytes/node size); after any history, once everything taken from a list has been released, its capacity is at least what it was (so repeating allocate/release cycles never grows the pool); a single-node request triggers no growth (no upstream call, no new range) while the list holds a node.',
+    note='Trusted: Coq kernel; Spec model tied by replaying implementation logs with capacity_left / pool_capacity_left / next_capacity compared after every operation, in configurations with unordered and ordered node lists. The ordered list position search (find_pos) is not re-proved in this round (prototype proof exists in DESIGN Appendix A).',
+    technique='Coq invariant proof (counting) + trace acceptance with exact capacity comparison', ref='5 C04')
+CLAIMED['C18'] = dict(
+    text='Theorems over the formulas translated from the source on this run: min_block_size(ns, n) makes the node and array lists link exactly n nodes and the small list at least n, for every node size and count (chunking, inter-chunk padding and the unsigned-char counter included; the formula of the pinned commit is refuted at (1, 510)); arena/stack min_block_size leaves exactly the requested bytes; pool capacity figures are exact and move by exactly the nodes of each operation; a stack allocation consumes exactly fence + padding + size + fence.',
+    note='Trusted: Coq kernel; translator; the small-list carving model is hand-written and tied by enumerating real lists/pools built from min_block_size (thorough: the complete domain 1..512 x 1..2000 x 3 list types) and comparing node counts; counters compared in lock-step on histories. "Reported maxima are upper bounds" is checked on logs, not proved.',
+    technique='Coq arithmetic proofs over translator-regenerated formulas + exhaustive enumeration as model validation', ref='5 C18')
+
 NOT_YET = {}
 
 checks = []
